@@ -444,6 +444,10 @@ def _helper_kind(fn):
         return None, body
     if fn.args.vararg or fn.args.kwarg or fn.args.kwonlyargs or fn.decorator_list:
         return None, body
+    if any(isinstance(n, ast.YieldFrom) for n in ast.walk(fn)):
+        body = _yield_from_to_loop(copy.deepcopy(body))
+        fn = copy.copy(fn)
+        fn.body = body
     for n in ast.walk(fn):
         if isinstance(n, (ast.YieldFrom, ast.Global, ast.Nonlocal, ast.Lambda)) \
                 or (isinstance(n, (ast.FunctionDef, ast.ClassDef)) and n is not fn):
@@ -465,7 +469,109 @@ def _helper_kind(fn):
         return "proc", body
     if isinstance(body[-1], ast.Return) and body[-1].value is not None and len(rets) == 1:
         return "tail", body      # arbitrary statements, then the only return
+    if rets and all(r.value is not None for r in rets):
+        # several returns, each the last thing done on its path: the statement containing
+        # the call is carried to every return
+        norm = _returns_to_tail(copy.deepcopy(body))
+        if _tail_ok(norm):
+            return "multi", norm
     return None, body
+
+
+def _yield_from_to_loop(block):
+    """`yield from X` as a statement  ->  `for t in X: yield t`"""
+    out = []
+    for st in block:
+        if isinstance(st, ast.Expr) and isinstance(st.value, ast.YieldFrom):
+            t = f"item__y{next(_counter)}"
+            loop = ast.For(target=ast.Name(id=t, ctx=ast.Store()), iter=st.value.value,
+                           body=[ast.Expr(value=ast.Yield(value=ast.Name(id=t, ctx=ast.Load())))],
+                           orelse=[])
+            ast.copy_location(loop, st)
+            ast.fix_missing_locations(loop)
+            out.append(loop)
+            continue
+        for field in ("body", "orelse", "finalbody"):
+            b = getattr(st, field, None)
+            if isinstance(b, list) and b and isinstance(b[0], ast.stmt):
+                setattr(st, field, _yield_from_to_loop(b))
+        if isinstance(st, ast.Try):
+            for h in st.handlers:
+                h.body = _yield_from_to_loop(h.body)
+        out.append(st)
+    return out
+
+
+def _has_return(block):
+    todo = list(block)
+    while todo:
+        n = todo.pop()
+        if isinstance(n, ast.Return):
+            return True
+        if isinstance(n, (ast.FunctionDef, ast.Lambda, ast.ClassDef)):
+            continue
+        todo.extend(ast.iter_child_nodes(n))
+    return False
+
+
+def _returns_to_tail(block):
+    """guards ending in a return, and try statements whose handlers all end in a jump, take
+    the statements that follow them as their else branch"""
+    out = []
+    for i, st in enumerate(block):
+        rest = block[i + 1:]
+        if isinstance(st, ast.If):
+            st.body = _returns_to_tail(st.body)
+            st.orelse = _returns_to_tail(st.orelse)
+            if rest and _has_return([st]) and not st.orelse and _ends_in_jump(st.body):
+                st.orelse = _returns_to_tail(rest)
+                out.append(st)
+                return out
+        elif isinstance(st, ast.Try):
+            for h in st.handlers:
+                h.body = _returns_to_tail(h.body)
+            st.orelse = _returns_to_tail(st.orelse)
+            if rest and _has_return([st]) and not st.orelse and not st.finalbody \
+                    and st.handlers and all(_ends_in_jump(h.body) for h in st.handlers):
+                st.orelse = _returns_to_tail(rest)
+                out.append(st)
+                return out
+        out.append(st)
+    return out
+
+
+def _tail_ok(block):
+    """every path through the block ends in `return <value>` as its last action, outside any
+    try body / with / loop"""
+    if not block or _has_return(block[:-1]):
+        return False
+    st = block[-1]
+    if isinstance(st, ast.Return):
+        return st.value is not None
+    if isinstance(st, ast.If):
+        return bool(st.orelse) and _tail_ok(st.body) and _tail_ok(st.orelse)
+    if isinstance(st, ast.Try):
+        return not st.finalbody and not _has_return(st.body) and bool(st.orelse) \
+            and bool(st.handlers) and all(_tail_ok(h.body) for h in st.handlers) \
+            and _tail_ok(st.orelse)
+    return False
+
+
+def _replace_returns(block, make):
+    out = []
+    for st in block:
+        if isinstance(st, ast.Return):
+            out.append(make(st.value))
+            continue
+        if isinstance(st, ast.If):
+            st.body = _replace_returns(st.body, make)
+            st.orelse = _replace_returns(st.orelse, make)
+        elif isinstance(st, ast.Try):
+            for h in st.handlers:
+                h.body = _replace_returns(h.body, make)
+            st.orelse = _replace_returns(st.orelse, make)
+        out.append(st)
+    return out
 
 
 def _locals_of(body, params):
@@ -696,9 +802,41 @@ class _Inliner:
                     if m is not None:
                         body = self.splice((h[0], h[1], h[2][:-1], h[3]), m, st, keep=h[2][-1])
                         ret = body.pop()
+                        # `T = helper(...)` where the helper returns one of its own locals:
+                        # that local is T itself
+                        if isinstance(st, ast.Assign) and len(st.targets) == 1 \
+                                and isinstance(st.targets[0], ast.Name) \
+                                and isinstance(ret.value, ast.Name) and "__h" in ret.value.id:
+                            tname, loc = st.targets[0].id, ret.value.id
+                            used = {n.id for s_ in body for n in ast.walk(s_)
+                                    if isinstance(n, ast.Name)}
+                            if tname not in used:
+                                for s_ in body:
+                                    for n in ast.walk(s_):
+                                        if isinstance(n, ast.Name) and n.id == loc:
+                                            n.id = tname
+                                out.extend(body)
+                                self.changed = True
+                                continue
                         st.value = ret.value
                         out.extend(body)
                         out.append(st)
+                        self.changed = True
+                        continue
+                if h and h[1] == "multi":
+                    m = _bind(h[0], call, h[3])
+                    if m is not None:
+                        body = self.splice(h, m, st)
+
+                        def make(value, st=st):
+                            new = copy.copy(st)
+                            new.value = value
+                            if isinstance(st, ast.Assign):
+                                new.targets = copy.deepcopy(st.targets)
+                            elif isinstance(st, ast.AugAssign):
+                                new.target = copy.deepcopy(st.target)
+                            return new
+                        out.extend(_replace_returns(body, make))
                         self.changed = True
                         continue
             # expression helpers inside the statement's own expressions (not nested blocks)
@@ -763,8 +901,14 @@ class _Inliner:
             body = list(body) + [keep]
         pre = []
         mapping = {}
+        reads = {}
+        for s_ in body:
+            for n in ast.walk(s_):
+                if isinstance(n, ast.Name) and isinstance(n.ctx, ast.Load):
+                    reads[n.id] = reads.get(n.id, 0) + 1
         for p, a in m.items():
-            if _simple_arg(a):
+            if _simple_arg(a) or (isinstance(a, (ast.List, ast.Tuple)) and reads.get(p, 0) <= 1
+                                  and all(_simple_arg(e) for e in a.elts)):
                 mapping[p] = a
             else:
                 nm = f"{p}__h{next(_counter)}"
@@ -1044,15 +1188,128 @@ def propagate_all(tree):
 # ---------------------------------------------------------------------------------------------
 # driver
 # ---------------------------------------------------------------------------------------------
+# ---------------------------------------------------------------------------------------------
+# S: simplifications that inlining makes possible -- constant tests, loops over a one-element
+# display, tests already decided by an enclosing branch (type tests of a name only)
+# ---------------------------------------------------------------------------------------------
+def _type_fact(test):
+    """isinstance(<name>, T) / <name> is None  ->  (text of the positive fact, polarity, name)"""
+    pol = True
+    while isinstance(test, ast.UnaryOp) and isinstance(test.op, ast.Not):
+        test, pol = test.operand, not pol
+    if isinstance(test, ast.Call) and isinstance(test.func, ast.Name) \
+            and test.func.id == "isinstance" and len(test.args) == 2 \
+            and isinstance(test.args[0], ast.Name) and not test.keywords:
+        return _unparse(test), pol, test.args[0].id
+    if isinstance(test, ast.Compare) and len(test.ops) == 1 and isinstance(test.left, ast.Name) \
+            and isinstance(test.comparators[0], ast.Constant) \
+            and test.comparators[0].value is None \
+            and isinstance(test.ops[0], (ast.Is, ast.IsNot)):
+        pos = ast.Compare(left=test.left, ops=[ast.Is()], comparators=test.comparators)
+        return _unparse(pos), pol == isinstance(test.ops[0], ast.Is), test.left.id
+    return None
+
+
+def _stored_names(st):
+    out = set()
+    for n in ast.walk(st):
+        if isinstance(n, ast.Name) and isinstance(n.ctx, (ast.Store, ast.Del)):
+            out.add(n.id)
+        elif isinstance(n, (ast.FunctionDef, ast.ClassDef)):
+            out.add(n.name)
+        elif isinstance(n, (ast.Global, ast.Nonlocal)):
+            out.update(n.names)
+    return out
+
+
+def simplify_block(block, facts=None):
+    facts = dict(facts or {})
+    out = []
+    for st in block:
+        if isinstance(st, (ast.FunctionDef, ast.AsyncFunctionDef, ast.ClassDef)):
+            st.body = simplify_block(st.body, {})
+            out.append(st)
+            facts = {k: v for k, v in facts.items() if v[1] not in _stored_names(st)}
+            continue
+        if isinstance(st, ast.If):
+            known = None
+            if isinstance(st.test, ast.Constant) and isinstance(st.test.value, bool):
+                known = st.test.value
+            tf = _type_fact(st.test)
+            if known is None and tf is not None and tf[0] in facts:
+                known = facts[tf[0]][0] == tf[1]
+            if known is not None:
+                chosen = simplify_block(st.body if known else st.orelse, facts)
+                out.extend(chosen)
+                for c in chosen:
+                    facts = {k: v for k, v in facts.items() if v[1] not in _stored_names(c)}
+                continue
+            fb, fe = dict(facts), dict(facts)
+            if tf is not None:
+                fb[tf[0]] = (tf[1], tf[2])
+                fe[tf[0]] = (not tf[1], tf[2])
+            st.body = simplify_block(st.body, fb)
+            st.orelse = simplify_block(st.orelse, fe)
+            if not st.body and not st.orelse:
+                # both sides vanished: the test itself has no effect (type tests, constants)
+                if tf is not None or isinstance(st.test, ast.Constant):
+                    continue
+                st.body = [ast.copy_location(ast.Pass(), st)]
+            elif not st.body:
+                st.test, st.body, st.orelse = negate(st.test), st.orelse, []
+        elif isinstance(st, ast.For) and not st.orelse and isinstance(st.iter, (ast.List,
+                                                                               ast.Tuple)) \
+                and len(st.iter.elts) == 1 and not isinstance(st.iter.elts[0], ast.Starred) \
+                and not _jumps_out(st.body):
+            asg = ast.Assign(targets=[st.target], value=st.iter.elts[0])
+            ast.copy_location(asg, st)
+            ast.fix_missing_locations(asg)
+            new = simplify_block([asg] + st.body, facts)
+            out.extend(new)
+            for c in new:
+                facts = {k: v for k, v in facts.items() if v[1] not in _stored_names(c)}
+            continue
+        elif isinstance(st, (ast.For, ast.While)):
+            killed = _stored_names(st)
+            inner = {k: v for k, v in facts.items() if v[1] not in killed}
+            st.body = simplify_block(st.body, inner)
+            st.orelse = simplify_block(st.orelse, inner)
+        elif isinstance(st, ast.With):
+            st.body = simplify_block(st.body, facts)
+        elif isinstance(st, ast.Try):
+            killed = _stored_names(st)
+            inner = {k: v for k, v in facts.items() if v[1] not in killed}
+            st.body = simplify_block(st.body, inner)
+            for h in st.handlers:
+                h.body = simplify_block(h.body, inner)
+            st.orelse = simplify_block(st.orelse, inner)
+            st.finalbody = simplify_block(st.finalbody, inner)
+        out.append(st)
+        stored = _stored_names(st)
+        if stored:
+            facts = {k: v for k, v in facts.items() if v[1] not in stored}
+    return out
+
+
 def canonicalise(tree, sigs=None):
     if sigs:
         tree = _KwToPos(sigs).visit(tree)
     _Inliner(tree).run()
+    tree.body = simplify_block(tree.body)
     tree = _KeysNorm().visit(tree)
     tree.body = canon_block(tree.body)
     ast.fix_missing_locations(tree)
     propagate_all(tree)
     for x in ast.walk(tree):
         x.__dict__.pop("_cparent", None)
+    # propagation may have exposed further simplifications (aliases of tested names)
+    before = ast.dump(tree)
+    tree.body = simplify_block(tree.body)
+    if ast.dump(tree) != before:
+        tree.body = canon_block(tree.body)
+        ast.fix_missing_locations(tree)
+        propagate_all(tree)
+        for x in ast.walk(tree):
+            x.__dict__.pop("_cparent", None)
     ast.fix_missing_locations(tree)
     return tree
